@@ -35,11 +35,19 @@ def pick_rules(rng, src):
   ops = recipes.op_names_in(src) or ['FULLY_CONNECTED']
   rules = []
   n = int(rng.integers(1, 4))
+  static_at = int(rng.integers(n))          # position of the guaranteed static-range rule
+  shared_rx = None
+  if n > 1 and rng.random() < 0.3:
+    shared_rx = recipes.regex_family(rng, names, safe_only=False)   # several op-specific rules under ONE regex
   for i in range(n):
     r = rng.random()
     sel = '*' if r < 0.5 else 'INPUT' if r < 0.62 else 'OUTPUT' if r < 0.67 else str(rng.choice(ops))
     rx, form = recipes.regex_family(rng, in_names if (sel == 'INPUT' or (sel == '*' and rng.random() < 0.25)) else names, safe_only=False)
-    name = str(rng.choice(recipes.SRQ)) if (i == 0 or rng.random() < 0.5) else str(rng.choice(recipes.GOOD))
+    if shared_rx is not None:
+      rx, form = shared_rx
+      if sel == '*':
+        sel = str(rng.choice(ops))
+    name = str(rng.choice(recipes.SRQ)) if (i == static_at or rng.random() < 0.4) else str(rng.choice(recipes.GOOD))
     rules.append((rx, sel, name, form))
   return rules
 
@@ -86,6 +94,27 @@ def run_case(ctx, case, rng):
     rules = pick_rules(rng, src)
     qt = aeq.Quantizer(spec.content)
     acc = []
+    if rng.random() < 0.25:
+      # history: the Quantizer has already been used with another recipe (need_calibration queried, calibrate/quantize
+      # attempted) before the rules under test are added on top
+      ctx.count('warmed_quantizer_histories')
+      for rx, sel, name, form in pick_rules(rng, src)[:2]:
+        if rng.random() < 0.5:
+          name = str(rng.choice(recipes.FLOAT_COMPUTE))
+        alg, cfg = recipes.CFGS[name]
+        try:
+          qt.update_quantization_recipe(rx, OP(sel), cfg, alg)
+          acc.append((rx, sel, name, form))
+        except ValueError:
+          pass
+      try:
+        _ = qt.need_calibration
+        c0 = None
+        for s in spec.signatures:
+          c0 = qt.calibrate(datasets[s['key']], signature_key=s['key'] if multi else None, previous_calibration_result=c0)
+        qt.quantize(c0)
+      except Exception:  # pylint: disable=broad-except
+        pass
     for rx, sel, name, form in rules:
       alg, cfg = recipes.CFGS[name]
       try:
@@ -93,7 +122,16 @@ def run_case(ctx, case, rng):
         acc.append((rx, sel, name, form))
       except ValueError:
         pass
-    if not acc or not qt.need_calibration:
+    if not acc:
+      ctx.count('no_rule_accepted')
+      continue
+    # reference for "needs calibration": some rule of the exported recipe is static-range (integer compute with an activation config)
+    exported = recipes.json_recipe(qt.get_quantization_recipe())
+    need_ref = any(e['op_config'].get('compute_precision') == 'INTEGER' and 'activation_tensor_config' in e['op_config'] for e in exported)
+    if bool(qt.need_calibration) != need_ref:
+      ctx.violation('need_calibration_disagrees_with_recipe', {'library': bool(qt.need_calibration), 'reference': need_ref},
+                    {'rules': [a[:3] for a in acc], 'exported': exported})
+    if not need_ref:
       ctx.count('recipe_without_static_rule')
       continue
     forms = sorted({a[3] for a in acc})
